@@ -20,7 +20,8 @@ Definition svec := list Z.
 Definition points := list (skey * svec).
 
 Inductive rkind := RManual | RPeriodic.
-Record rcfg := { rk : rkind; r_delta : bool }.
+(** [r_cb]: an observable callback is registered with the meter (every pipeline runs it) *)
+Record rcfg := { rk : rkind; r_delta : bool; r_cb : bool }.
 
 Inductive op :=
 | Add (i : inst) (k : skey) (v : Z)
@@ -28,13 +29,15 @@ Inductive op :=
 | Tick (r : nat)
 | Flush (r : nat)
 | Shutdown (r : nat)
-| SetErr (b : bool).
+| SetErr (b : bool)
+| CollectC (r : nat).   (* Reader.Collect with a context that is already cancelled *)
 
 (** result of a reader call as the caller sees it *)
 Definition E_NIL : N := 0.
 Definition E_SHUTDOWN : N := 1.   (* ErrReaderShutdown *)
 Definition E_CALLBACK : N := 2.   (* the callback's error *)
 Definition E_NA : N := 3.         (* not a call on this reader / not offered by this reader *)
+Definition E_CTX : N := 4.        (* the context's error *)
 
 (** What an operation means for reader [r] according to the reader API: does it attempt a
     collection, is the collected data delivered (to the caller / the exporter) or is the
@@ -53,6 +56,15 @@ Definition attempt (rc : rcfg) (r : nat) (down err hasdata : bool) (o : op) : cr
       if Nat.eqb r' r
       then if down then (CNone, down, E_SHUTDOWN)
            else (CDelivered, down, if err then E_CALLBACK else E_NIL)   (* the caller's rm is filled either way *)
+      else (CNone, down, E_NA)
+  | CollectC r' =>
+      (* pipeline.produce looks at the context only after a callback has run: with a callback
+         registered the call returns the context's error and no data, and no aggregation has been
+         computed (nothing is consumed); with none it is an ordinary Collect *)
+      if Nat.eqb r' r
+      then if down then (CNone, down, E_SHUTDOWN)
+           else if r_cb rc then (CNone, down, E_CTX)
+           else (CDelivered, down, if err then E_CALLBACK else E_NIL)
       else (CNone, down, E_NA)
   | Tick r' | Flush r' =>
       if Nat.eqb r' r
